@@ -51,6 +51,8 @@ func init() {
 		"bytes.Repeat":              bytesRepeat,
 		"strings.ToUpper":           toUpper,
 		"sync/atomic.AddUint32":     atomicAdd32,
+		"sync/atomic.LoadUint32":    atomicLoad32,
+		"sync/atomic.StoreUint32":   atomicStore32,
 		"net.IPv4":                  netIPv4,
 		"(net.IP).To4":              ipTo4,
 		"(net.IP).To16":             ipTo16,
@@ -240,6 +242,24 @@ func atomicAdd32(ex *Exec, st *State, fr *Frame, c ssa.Instruction, fn *ssa.Func
 	ex.noteWrite(st, fr, p, types.Typ[types.Uint32])
 	st.storePtr(p, VInt{nv})
 	return []Outcome{{st, []Value{VInt{nv}}}}
+}
+
+func atomicLoad32(ex *Exec, st *State, fr *Frame, c ssa.Instruction, fn *ssa.Function, args []Value) []Outcome {
+	p := ex.checkNonNil(st, fr, args[0].(VPtr), c)
+	if st.dead {
+		return nil
+	}
+	return []Outcome{{st, []Value{st.loadPtr(p)}}}
+}
+
+func atomicStore32(ex *Exec, st *State, fr *Frame, c ssa.Instruction, fn *ssa.Function, args []Value) []Outcome {
+	p := ex.checkNonNil(st, fr, args[0].(VPtr), c)
+	if st.dead {
+		return nil
+	}
+	ex.noteWrite(st, fr, p, types.Typ[types.Uint32])
+	st.storePtr(p, args[1])
+	return []Outcome{{st, nil}}
 }
 
 func mkBytes(st *State, vals []*Term, tag string) VSlice {
